@@ -207,6 +207,18 @@ def build_obligations(prop, gen_files=(), extra_files=()):
   files = list(gen_files) + list(extra_files) + [
       os.path.join(COQ, "theories", "Properties", prop + ".v")]
   outs = {}
+  # checks of different properties share generated / link files (C16, C17, C18): serialise this phase across processes
+  import fcntl
+  lock = open(os.path.join(COQ, ".obligations.lock"), "w")
+  fcntl.flock(lock, fcntl.LOCK_EX)
+  try:
+    return _build_obligations_locked(prop, files, info, outs)
+  finally:
+    fcntl.flock(lock, fcntl.LOCK_UN)
+    lock.close()
+
+
+def _build_obligations_locked(prop, files, info, outs):
   for f in files:
     info["files"].append(os.path.relpath(f, VERIF))
     try:
